@@ -111,9 +111,9 @@ func replay(in string, nk, capacity int, explain string, logall bool) {
 				// distinct = same kind of view, same read, same content of that height, same two results
 				ck := fmt.Sprintf("%s/%d", r.Via, r.H)
 				if _, ok := content[ck]; !ok {
-					content[ck] = w.doRead(w.viewOf(vc, w.b, "b", read{Via: r.Via, H: r.H}), read{Kind: "Iter", Asc: true}).raw
+					content[ck] = fmt.Sprint(w.doRead(w.viewOf(vc, w.b, "b", read{Via: r.Via, H: r.H}), read{Kind: "Iter", Asc: true}).idx)
 				}
-				sig := fmt.Sprintf("%s|%s|%d|%d|%d|%v|%s|%s|%s", r.Via, r.Kind, r.K, r.Lo, r.Hi, r.Asc, content[ck], ra.raw, rb.raw)
+				sig := fmt.Sprintf("%s|%s|%d|%d|%d|%v|%s|%v|%v", r.Via, r.Kind, r.K, r.Lo, r.Hi, r.Asc, content[ck], ra.idx, rb.idx)
 				seenMu.Lock()
 				if !seen[sig] {
 					seen[sig] = true
